@@ -586,3 +586,8 @@ def endpoint_reads_oracle(rng, n_random):
         if len(out) >= 3:
             break
     return out
+
+
+def endpoint_reads_battery():
+    import random
+    return endpoint_reads_oracle(random.Random(4), 20)
